@@ -46,6 +46,8 @@ pub struct GState {
     pub clone_panic_in: usize,
     pub clones: usize,
     pub inflight: usize,
+    /// operations whose description starts with one of these pass the gates without being held
+    pub auto_release: Vec<String>,
 }
 
 pub struct Gate {
@@ -86,7 +88,7 @@ impl GateKv {
         {
             let mut st = g.m.lock().unwrap();
             id = st.ops.len();
-            let gated = st.gated;
+            let gated = st.gated && !st.auto_release.iter().any(|p| desc.starts_with(p.as_str()));
             st.ops.push(OpRec { desc, lop, released_before: !gated, entered: 0, done: false, exited: 0, released_after: !gated, result: None });
             st.inflight += 1;
             g.cv.notify_all();
@@ -164,6 +166,10 @@ impl Gate {
         let mut st = self.m.lock().unwrap();
         st.ops[id].released_after = true;
         self.cv.notify_all();
+    }
+    /// Operations whose description starts with `prefix` are not held when they arrive.
+    pub fn auto_release_prefix(&self, prefix: String) {
+        self.m.lock().unwrap().auto_release.push(prefix);
     }
     /// New arrivals are no longer held (operations already at the gate stay where they are).
     pub fn ungate_new_arrivals(&self) {
